@@ -151,6 +151,38 @@ struct DynClass {
 
         // scale slot ("deep"): base 2 with the smallest buffer and more than 2^18 resident entries, i.e. more than 16 non-empty
         // levels at a time; executed by one bulk operation without per-update oracles, judged afterwards
+#if !defined(__SANITIZE_ADDRESS__) && !defined(__SANITIZE_THREAD__)
+        // scale slot ("huge"): a level of capacity 2^24, the first size no single-precision value counts exactly. The level is
+        // bulk-loaded so that the first overflow cascade reaching it needs its free slots + delta (delta around 0), as
+        // computed by the sizes-only reference model of the cascade rule; executed by one operation, judged on every insert
+        // by the level sizes and at the end by the full shape check.
+        if (scale_slot(g) && (g.run_index & 15) < 4 && g.prop == "C15" && sizeof(K) >= 4 && std::is_trivially_copyable_v<V> && std::is_integral_v<K>) {
+            static const unsigned hb[3][2] = {{64, 0}, {16, 1}, {64, 1}}; // (base, buffer_level): level 4 / 6 / 4 has capacity 2^24
+            const unsigned *h = hb[cfg.below(3)];
+            Capacities hc(h[0], h[1], 0);
+            size_t L = 0; while (hc.level_cap(L) < (size_t(1) << 24)) ++L;
+            // reference model: sizes of the levels below L while distinct keys are inserted, until a cascade passes them all
+            std::vector<size_t> sz(L, 0);
+            size_t inserts = 0, need = 0;
+            for (;; ++inserts) {
+                if (sz[hc.eff_buffer_level] < hc.buffer_cap()) { ++sz[hc.eff_buffer_level]; continue; }
+                size_t req = hc.buffer_cap() + 1, i = hc.eff_buffer_level + 1;
+                for (; i < L; ++i) { if (req <= hc.level_cap(i) - sz[i]) break; req += sz[i]; }
+                if (i == L) { need = req; break; }
+                for (size_t j = hc.eff_buffer_level; j < i; ++j) sz[j] = 0;
+                sz[i] += req;
+            }
+            long delta = (long) (g.run_index & 3) - 2; // -2..+1, one slot each: the cascade exceeds the free slots by two or one, fits exactly, fits with room
+            size_t n0 = (size_t(1) << 24) - need - (size_t) (delta + 2) + 2; // free slots = need + delta
+            PlanText hp;
+            hp.set("engine", "histsim"); hp.set("prop", g.prop); hp.set("cfg", ce.name);
+            hp.set("base", h[0]); hp.set("buffer_level", h[1]); hp.set("index_level", 0);
+            hp.set("procs", 1); hp.set("maxthreads", 1); hp.set("preempt", 0);
+            hp.set("scale", 1); hp.set("huge", 1);
+            hp.item('O', "H " + std::to_string(L) + " " + std::to_string(n0) + " " + std::to_string(inserts + 1 + cfg.range(0, 40)) + " " + std::to_string(cfg.below(2)));
+            return hp;
+        }
+#endif
         bool deep = scale_slot(g) && !large && sizeof(K) >= 4 && g.prop != "C19" && g.prop != "C20";
         if (deep) {
             p.set("base", 2); p.set("buffer_level", 1); p.set("index_level", cfg.chance(500) ? cfg.range(2, 8) : 0);
@@ -366,6 +398,68 @@ struct DynClass {
         return s;
     }
 
+    /// The "huge" scale slot: bulk-load n0 entries (they land in level L), insert `count` further distinct keys, judging the
+    /// level sizes after every insert, the full shape at the end and a sample of lookups. No std::map model: keys and values
+    /// are given by formulas.
+    static Outcome run_huge(const CfgEntry &ce, const PlanText &p, const Op &o, const Capacities &cap, const sim::Env &env, Stats &st) {
+        Outcome out;
+        Trace tr;
+        const size_t L = (size_t) o.a[0], n0 = (size_t) o.a[1], count = (size_t) o.a[2];
+        const bool interleave = o.a[3] != 0;
+        gen::KeyMap<K> km;
+        auto bulk_key = [&](size_t i) { return km.at(1000 + 2 * (uint64_t) i); };
+        const size_t stride = std::max<size_t>(1, n0 / (count + 1));
+        auto ins_key = [&](size_t j) { return interleave ? km.at(1000 + 2 * (uint64_t) (j * stride) + 1) : km.at(1000 + 2 * (uint64_t) (n0 + 1 + j)); };
+        if (n0 == 0 || 1000 + 2 * (uint64_t) (n0 + count + 2) > km.U) { out.trace_hash = tr.h; return out; }
+        std::unique_ptr<Dyn> X;
+        {
+            std::vector<std::pair<K, V>> bulk;
+            bulk.reserve(n0);
+            for (size_t i = 0; i < n0; ++i) bulk.emplace_back(bulk_key(i), VM::make(i + 1));
+            sim::begin_run(env);
+            try { X.reset(new Dyn(bulk.begin(), bulk.end(), (uint8_t) cap.base, (uint8_t) p.get_u("buffer_level", 0), (uint8_t) p.get_u("index_level", 0))); }
+            catch (const std::exception &e) { sim::end_run(); out.fail("ctor-exception", std::string("bulk-load of a sorted range threw: ") + e.what()); out.trace_hash = tr.h; return out; }
+        }
+        const size_t minl = Access::min_level(*X);
+        auto sizes_ok = [&](size_t step) {
+            const auto &levels = Access::levels(*X);
+            size_t used = Access::used_levels(*X), total = 0;
+            for (size_t li = 0; li < levels.size(); ++li) {
+                size_t lvl = li + minl, capacity = lvl == minl ? cap.buffer_cap() : cap.level_cap(lvl);
+                total += levels[li].size();
+                if (levels[li].size() > capacity) { out.fail("level-overfull", "after insert #" + std::to_string(step) + ": level " + std::to_string(lvl) + " holds " + std::to_string(levels[li].size()) + " entries, capacity " + std::to_string(capacity)); return false; }
+                if (lvl >= used && !levels[li].empty()) { out.fail("data-beyond-used-levels", "after insert #" + std::to_string(step) + ": level " + std::to_string(lvl) + " >= used_levels " + std::to_string(used) + " holds data"); return false; }
+            }
+            if (total != n0 + step) { out.fail("entries-lost", "after insert #" + std::to_string(step) + " of distinct keys the levels hold " + std::to_string(total) + " entries, expected " + std::to_string(n0 + step)); return false; }
+            return true;
+        };
+        if (Access::levels(*X)[L - minl].size() != n0) st.inc("huge_bulk_not_in_target_level");
+        size_t big_before = Access::levels(*X)[L - minl].size(), reached = 0;
+        bool ok = sizes_ok(0);
+        for (size_t j = 0; j < count && ok; ++j) {
+            X->insert_or_assign(ins_key(j), VM::make(100000000 + j));
+            ok = sizes_ok(j + 1);
+            size_t big = Access::levels(*X)[L - minl].size();
+            if (big != big_before) { ++reached; tr.add(j); tr.add(big); big_before = big; }
+        }
+        sim::end_run();
+        if (reached) st.inc("reach.huge_cascade_reached_2p24_level");
+        st.inc("huge_runs");
+        if (out.ok) check_shape(*X, cap, env, out, st, tr);
+        // lookups: a sample of bulk keys, every 997th inserted key, absent even neighbours
+        for (size_t i = 0; i < n0 && out.ok; i += n0 / 1500 + 1) {
+            auto it = X->find(bulk_key(i));
+            if (it == X->end() || !values_equal(it->second, VM::make(i + 1))) out.fail("find-value", "find of bulk-loaded key #" + std::to_string(i) + " fails or returns another value");
+        }
+        for (size_t j = 0; j < count && out.ok; j += 997) {
+            auto it = X->find(ins_key(j));
+            if (it == X->end() || !values_equal(it->second, VM::make(100000000 + j))) out.fail("find-value", "find of inserted key #" + std::to_string(j) + " fails or returns another value");
+        }
+        st.mark("nontrivial", sim::mix(sim::hash_str(ce.name.c_str()), sim::mix(n0, count)));
+        out.trace_hash = tr.h;
+        return out;
+    }
+
     // ---- execution ------------------------------------------------------------------------------------------------------
     static Outcome run(const CfgEntry &ce, const PlanText &p, const RunCtx &rc, Stats &st) {
         Outcome out;
@@ -384,6 +478,7 @@ struct DynClass {
             if (it.first == 'P') { auto t = sim::split_ws(it.second); if (t.size() >= 2) { K k = (K) sim::text_to_ld(t[0]); bulk.emplace_back(k, VM::make(std::strtoull(t[1].c_str(), nullptr, 10))); domain_set.insert(k); } }
             else if (it.first == 'O') { ops.push_back(parse_op(it.second)); const Op &o = ops.back(); if (!o.a.empty() && o.kind != "D" && o.kind != "Z") domain_set.insert((K) o.a[0]); }
         }
+        if (p.get_u("huge", 0) && !ops.empty() && ops[0].kind == "H" && ops[0].a.size() >= 4) return run_huge(ce, p, ops[0], cap, env, st);
         std::vector<K> domain(domain_set.begin(), domain_set.end());
         if (domain.size() > 3000) { std::vector<K> s; for (size_t i = 0; i < domain.size(); i += domain.size() / 3000 + 1) s.push_back(domain[i]); domain.swap(s); }
         std::sort(bulk.begin(), bulk.end(), [](auto &a, auto &b) { return a.first < b.first; }); // stable w.r.t. plan edits: ddmin keeps order, sort is a no-op on sorted input
